@@ -237,7 +237,11 @@ ShellCommand::processDependencyInfoDiscoveredDependencies(BuildSystem& system,
 
     virtual void actOnVersion(StringRef) override { }
     virtual void actOnMissing(StringRef path) override {
-      system.getDelegate().commandFoundDiscoveredDependency(command, path, DiscoveredDependencyKind::Missing);
+      // A path the command looked for and did not find is a dependency too:
+      // the command must run again once the path appears.
+      auto resolved = resolvePath(path);
+      ti.discoveredDependency(BuildKey::makeNode(resolved).toData());
+      system.getDelegate().commandFoundDiscoveredDependency(command, resolved, DiscoveredDependencyKind::Missing);
     }
     virtual void actOnOutput(StringRef path) override {
       system.getDelegate().commandFoundDiscoveredDependency(command, path, DiscoveredDependencyKind::Output);
